@@ -156,7 +156,7 @@ class Reject(Exception):
 def rand_token(rnd):
     k = rnd.random()
     if k < 0.16:
-        t = rnd.choice(ge.NUMBER_TEXTS)
+        t = rnd.choice(ge.NUMBER_TEXTS + ge.OVERFLOW_NUMBER_TEXTS[:2])
         return ('num', t, float(t))
     if k < 0.26:
         v = rnd.choice(ge.STRING_VALUES)
@@ -331,7 +331,11 @@ def run_shard(ctx, spec):
     if spec['kind'] == 'trees':
         def prop(seed, size):
             rnd = random.Random(seed)
-            tree = ge.gen_tree(rnd, size)
+            ge.WIDE['numbers'] = True
+            try:
+                tree = ge.gen_tree(rnd, size)
+            finally:
+                ge.WIDE['numbers'] = False
             toks, expected = ge.print_tree(tree, rnd, rnd.choice([0.0, 0.0, 0.15, 0.4]))
             text = ge.join_tokens(toks, rnd)
             try:
